@@ -445,10 +445,17 @@ type tierSpec struct {
 }
 
 func tierFor(prop, tier string) tierSpec {
+	light := prop == "C13" || prop == "C14" || prop == "C04" || prop == "C17"
 	if tier == "thorough" {
-		return tierSpec{runs: 60000, budget: 900}
+		if light {
+			return tierSpec{runs: 400000, budget: 900}
+		}
+		return tierSpec{runs: 120000, budget: 1500}
 	}
-	return tierSpec{runs: 2400, budget: 75}
+	if light {
+		return tierSpec{runs: 20000, budget: 90}
+	}
+	return tierSpec{runs: 6000, budget: 110}
 }
 
 func splitmix(x uint64) uint64 {
